@@ -66,6 +66,21 @@ pub fn gen_c05(tier: &str, rng: &mut Rng, w: &mut dyn Write) {
     tok_line(w, "parse_range", b"JTs");
     tok_line(w, "parse_range", b"72o");
     tok_line(w, "parse_range", b"QQ+, A9s+ ,88-66,AQs-A9s, AsKs , KsAs:0.5");
+    // lists over a tiny pool of token texts, so the same text recurs with overlapping tokens in between
+    // (the later occurrence must win again)
+    for i in 0..(if tier == "thorough" { 4000 } else { 400 }) {
+        let pool_texts: [&[u8]; 10] = [b"QQ+", b"KK:0.25", b"KK", b"A9s+:0.5", b"AsKs", b"AKs:0.3", b"TT-88", b"99:0.5", b"AQs-A9s", b"AJs:0.125"];
+        let k = 3 + rng.below(5) as usize;
+        let base = (i % 7) as usize;
+        let mut s: Vec<u8> = vec![];
+        for j in 0..k {
+            if j > 0 {
+                s.push(b',');
+            }
+            s.extend_from_slice(pool_texts[(base + rng.below(4) as usize) % 10]);
+        }
+        tok_line(w, "parse_range", &s);
+    }
     // token lists: 1..40 tokens, overlaps (narrow pool of ranks), spaces, later weights overriding earlier ones
     let n = if tier == "thorough" { 6000 } else { 400 };
     let non_card: Vec<&Vec<u8>> = toks.iter().filter(|t| !(t.len() == 4 && SUIT_CH.contains(&t[1]))).collect();
@@ -87,6 +102,35 @@ pub fn gen_c05(tier: &str, rng: &mut Rng, w: &mut dyn Write) {
             }
         }
         tok_line(w, "parse_range", &s);
+    }
+}
+
+/// the seven token shapes with arbitrary ranks (reversed / degenerate spans included) and all 52 x 52 card-pair tokens,
+/// through parse_token (expand + format) and parse_range (+ views + evaluation); shared by C09 and C10
+pub fn shapes_stream(w: &mut dyn Write) {
+    for x in 0..13 {
+        for y in 0..13 {
+            tok_line(w, "parse_range", &[rk(x), rk(x), b'-', rk(y), rk(y)]);
+            tok_line(w, "parse_token", &[rk(x), rk(x), b'-', rk(y), rk(y)]);
+            tok_line(w, "parse_token", &[rk(x), rk(y), b'-', rk(x), rk(y)]);
+            for &so in b"so" {
+                tok_line(w, "parse_range", &[rk(x), rk(y), so, b'+']);
+                tok_line(w, "parse_token", &[rk(x), rk(y), so, b'+']);
+                tok_line(w, "parse_range", &[rk(x), rk(y), so]);
+                tok_line(w, "parse_range", &[rk(x), rk(y), b'+']);
+                for z in 0..13 {
+                    tok_line(w, "parse_range", &[rk(x), rk(y), so, b'-', rk(x), rk(z), so]);
+                    tok_line(w, "parse_token", &[rk(x), rk(y), so, b'-', rk(z), rk(x), so]);
+                    let other = if so == b's' { b'o' } else { b's' };
+                    tok_line(w, "parse_token", &[rk(x), rk(y), so, b'-', rk(x), rk(z), other]);
+                }
+            }
+        }
+    }
+    for a in 0..52 {
+        for b in 0..52 {
+            tok_line(w, "parse_range", &[rk(a / 4), SUIT_CH[a % 4], rk(b / 4), SUIT_CH[b % 4]]);
+        }
     }
 }
 
@@ -112,31 +156,7 @@ pub fn gen_c09(tier: &str, rng: &mut Rng, w: &mut dyn Write) {
             }
         }
     }
-    // the seven token shapes with arbitrary ranks (reversed / degenerate spans included), then expand + format + evaluate
-    for x in 0..13 {
-        for y in 0..13 {
-            tok_line(w, "parse_range", &[rk(x), rk(x), b'-', rk(y), rk(y)]);
-            tok_line(w, "parse_token", &[rk(x), rk(x), b'-', rk(y), rk(y)]);
-            tok_line(w, "parse_token", &[rk(x), rk(y), b'-', rk(x), rk(y)]);
-            for &so in b"so" {
-                tok_line(w, "parse_range", &[rk(x), rk(y), so, b'+']);
-                tok_line(w, "parse_token", &[rk(x), rk(y), so, b'+']);
-                tok_line(w, "parse_range", &[rk(x), rk(y), so]);
-                tok_line(w, "parse_range", &[rk(x), rk(y), b'+']);
-                for z in 0..13 {
-                    tok_line(w, "parse_range", &[rk(x), rk(y), so, b'-', rk(x), rk(z), so]);
-                    tok_line(w, "parse_token", &[rk(x), rk(y), so, b'-', rk(z), rk(x), so]);
-                    let other = if so == b's' { b'o' } else { b's' };
-                    tok_line(w, "parse_token", &[rk(x), rk(y), so, b'-', rk(x), rk(z), other]);
-                }
-            }
-        }
-    }
-    for a in 0..52 {
-        for b in 0..52 {
-            tok_line(w, "parse_range", &[rk(a / 4), SUIT_CH[a % 4], rk(b / 4), SUIT_CH[b % 4]]);
-        }
-    }
+    shapes_stream(w);
     // multi-byte characters spliced at every byte offset of valid texts
     let valid = ["AsKs", "QQ+", "A9s+:0.5", "88-66", "AQs-A9s:0.25", "AA:1", "As", "AsKs,QQ:0.5"];
     for v in valid {
@@ -193,6 +213,7 @@ pub fn gen_c10(tier: &str, rng: &mut Rng, w: &mut dyn Write) {
         tok_line(w, "parse_token", format!("KK:{}", l).as_bytes());
         tok_line(w, "parse_range", format!("KK:{},QQ", l).as_bytes());
     }
+    shapes_stream(w);
     // all 52 x 52 card-pair tokens, including both cards equal
     for a in 0..52 {
         for b in 0..52 {
@@ -237,6 +258,8 @@ fn pair_combos(x: usize, y: usize, suited: bool) -> Vec<usize> {
     v
 }
 
+/// weight pairs one ulp apart (equal for every practical purpose, different as values)
+const ULP_PAIRS: [(u32, u32); 4] = [(0x3F000000, 0x3F000001), (0x3E99999A, 0x3E99999B), (0x3F7FFFFF, 0x3F800000), (0x3E800000, 0x3E7FFFFF)];
 const WA: u32 = 0x3F000000; // 0.5
 const WB: u32 = 0x3F800000; // 1.0
 
@@ -300,6 +323,29 @@ pub fn gen_c12(tier: &str, rng: &mut Rng, w: &mut dyn Write) {
                 }
             }
         }
+    }
+    // weights one ulp apart inside one rank pair: all combos present, one or two of them off by an ulp
+    for (wa, wb) in ULP_PAIRS {
+        for r in [0usize, 5, 12] {
+            let cs = pocket_combos(r);
+            for odd in 0..cs.len() {
+                let es: Vec<(usize, u32)> = cs.iter().enumerate().map(|(i, c)| (*c, if i == odd { wb } else { wa })).collect();
+                emit_range_ops(w, &es);
+            }
+        }
+        for (x, y) in [(0usize, 1usize), (3, 9), (11, 12)] {
+            for suited in [true, false] {
+                let cs = pair_combos(x, y, suited);
+                for odd in 0..cs.len() {
+                    let es: Vec<(usize, u32)> = cs.iter().enumerate().map(|(i, c)| (*c, if i == odd { wb } else { wa })).collect();
+                    emit_range_ops(w, &es);
+                    let es2: Vec<(usize, u32)> = cs.iter().enumerate().map(|(i, c)| (*c, if i == odd { wa } else { wb })).collect();
+                    emit_range_ops(w, &es2);
+                }
+            }
+        }
+        // neighbouring rank pairs one ulp apart must not merge into one run
+        emit_range_ops(w, &row_range(&[1, 2, 2, 1, 0, 1, 2, 1, 2, 2, 0, 0, 1], &[(0, vec![1, 2, 1, 1, 2, 2, 0, 1, 2, 0, 0, 1])], &[(1, vec![2, 1, 2, 1, 0, 0, 1, 1, 2, 2, 1])], wa, wb));
     }
     // whole ranges: seeded subsets with two or three weights; full and nearly full ranges
     let all = all_combos();
@@ -397,6 +443,25 @@ pub fn gen_c06(tier: &str, rng: &mut Rng, w: &mut dyn Write) {
             emit_range_ops(w, &row_range(&digits3(rng.below(1594323) as usize, 13), &[], &[], weights[rng.below(7) as usize], weights[rng.below(7) as usize]));
         }
     }
+    // weights one ulp apart along rows and inside rank pairs
+    for (wa, wb) in ULP_PAIRS {
+        for _ in 0..(if thorough { 200 } else { 25 }) {
+            let h = rng.below(8) as usize;
+            let len = 12 - h;
+            let d1 = digits3(rng.below(3u64.pow(len as u32)) as usize, len);
+            let d2 = digits3(rng.below(3u64.pow(len as u32)) as usize, len);
+            let dp = digits3(rng.below(1594323) as usize, 13);
+            let mut es = row_range(&dp, &[(h, d1)], &[(h, d2)], wa, wb);
+            if rng.below(2) == 0 {
+                // break one rank pair by an ulp
+                let k = rng.below(es.len().max(1) as u64) as usize;
+                if let Some(e) = es.get_mut(k) {
+                    e.1 = if e.1 == wa { wb } else { wa };
+                }
+            }
+            emit_range_ops(w, &es);
+        }
+    }
     // long rows (ace / king high): seeded three-valued patterns; mixed rows together with partial rank pairs and single combos
     for _ in 0..(if thorough { 40000 } else { 2500 }) {
         let h = rng.below(5) as usize;
@@ -444,14 +509,14 @@ pub fn gen_c06(tier: &str, rng: &mut Rng, w: &mut dyn Write) {
 pub fn gen_c17(tier: &str, rng: &mut Rng, w: &mut dyn Write) {
     let thorough = tier == "thorough";
     let all = all_combos();
-    let proper: [u32; 6] = [0x3F800000, 0x3F000000, 0x3DCCCCCD, 0x3E800000, 0x3F7FFFFF, 0];
+    let proper: [u32; 8] = [0x3F800000, 0x3F000000, 0x3DCCCCCD, 0x3E800000, 0x3F7FFFFF, 0, 0x3F000001, 0x3E7FFFFF];
     for i in 0..(if thorough { 4000 } else { 300 }) {
         let es: Vec<(usize, u32)> = if i % 3 == 0 {
             // rows of complete rank pairs plus leftovers
             let mut es = row_range(&digits3(rng.below(1594323) as usize, 13), &[(rng.below(6) as usize, digits3(rng.below(729) as usize, 6))],
-                                   &[(rng.below(6) as usize, digits3(rng.below(729) as usize, 6))], proper[1 + rng.below(5) as usize], proper[rng.below(6) as usize]);
+                                   &[(rng.below(6) as usize, digits3(rng.below(729) as usize, 6))], proper[1 + rng.below(7) as usize], proper[rng.below(8) as usize]);
             for _ in 0..rng.below(5) {
-                es.push((all[rng.below(1326) as usize], proper[rng.below(6) as usize]));
+                es.push((all[rng.below(1326) as usize], proper[rng.below(8) as usize]));
             }
             // one weight per combo (the histories are permutations of this list)
             es.sort();
@@ -462,7 +527,7 @@ pub fn gen_c17(tier: &str, rng: &mut Rng, w: &mut dyn Write) {
             let mut es: Vec<(usize, u32)> = vec![];
             for c in all.iter() {
                 if rng.below(40) < density {
-                    es.push((*c, proper[rng.below(6) as usize]));
+                    es.push((*c, proper[rng.below(8) as usize]));
                 }
             }
             es
@@ -485,18 +550,32 @@ pub fn gen_c15(tier: &str, rng: &mut Rng, w: &mut dyn Write) {
     for _ in 0..(if tier == "thorough" { 400 } else { 40 }) {
         let k = 2 + rng.below(5) as usize;
         let mut line = format!("c15 {} {}", rng.next() % 1_000_000_007, k);
-        for _ in 0..k {
-            let flop = random_flop(rng);
+        let shared_ranges: Vec<Vec<(usize, u32)>> = (0..2).map(|_| { let sz = 1 + rng.below(3) as usize; random_range(rng, sz, false) }).collect();
+        let shared_flop = random_flop(rng);
+        let mode = rng.below(3); // 0: independent inputs, 1: same ranges on different flops, 2: same flop
+        for inst in 0..k {
+            let mut flop = if mode == 2 { shared_flop } else { random_flop(rng) };
+            if mode == 1 && inst > 0 {
+                // differ from the shared flop in one card only
+                flop = shared_flop;
+                loop {
+                    let c = rng.below(52) as usize;
+                    if !flop.contains(&c) {
+                        flop[2] = c;
+                        break;
+                    }
+                }
+            }
             let (mut a, mut b) = (random_pos(rng), random_pos(rng));
             if b < a {
                 std::mem::swap(&mut a, &mut b);
             }
-            let scoped = rng.below(3) != 0;
-            let np = 1 + rng.below(2) as usize;
+            let scoped = mode == 0 && rng.below(3) != 0;
+            let np = if mode == 1 { 2 } else { 1 + rng.below(2) as usize };
             line.push_str(&format!(" | 1 digest 0 {} {} {} - - {} {} {} {} {} {}", flop[0], flop[1], flop[2], a.0, a.1, b.0, b.1, scoped as u8, np));
-            for _ in 0..np {
+            for pi in 0..np {
                 let sz = 1 + rng.below(4) as usize;
-                let r = random_range(rng, sz, false);
+                let r = if mode == 1 { shared_ranges[pi].clone() } else { random_range(rng, sz, false) };
                 line.push_str(&format!(" {}", r.len()));
                 for (c, wb) in r {
                     line.push_str(&format!(" {} {}", c, wb));
